@@ -579,6 +579,42 @@ mod h {
     }
     fn is_of(r: &VirtualRegister) -> bool { matches!(r, VirtualRegister::Constant(ConstantRegister::Overflow)) }
     fn is_err(r: &VirtualRegister) -> bool { matches!(r, VirtualRegister::Constant(ConstantRegister::Error)) }
+    /// the `JNZ reg LABEL` rewrite: NOOP iff the register is zero, unconditional jump iff it is non-zero, otherwise the same
+    /// test on an equal register; the jump-target count of the label is decremented exactly when the jump disappears
+    pub fn check_jnz() {
+        let s = any_regs();
+        let mut k = any_known();
+        kani::assume(gamma(&k, &s));
+        let reg = any_readable();
+        kani::assume(!super::is_of_err(&reg));   // $of/$err are clobbered by control-flow pseudo-ops
+        let cnt: usize = kani::any();
+        kani::assume(cnt >= 1 && cnt <= 3);
+        let other: usize = kani::any();
+        kani::assume(other >= 1 && other <= 3);
+        let mut labels = FxHashMap::<Label, usize>::default();
+        labels.slots[0] = Some((Label(7), cnt));
+        if kani::any() { labels.slots[1] = Some((Label(9), other)); }
+        let had_other = labels.slots[1].is_some();
+        let mut op = Op { opcode: Either::Right(ControlFlowOp::Jump { to: Label(7), type_: JumpType::NotZero(reg.clone()) }), owning_span: None };
+        step(&mut op, &mut k, &mut labels);
+        let rv = s.get(&reg);
+        kani::cover!(matches!(op.opcode, Either::Left(VirtualOp::NOOP)));
+        let mut removed = false;
+        match &op.opcode {
+            Either::Left(VirtualOp::NOOP) => { removed = true; assert!(rv == 0, "OB: conditional jump removed although its register is not zero"); }
+            Either::Right(ControlFlowOp::Jump { to, type_: JumpType::Unconditional }) => { assert!(rv != 0 && *to == Label(7), "OB: conditional jump made unconditional although its register is zero"); }
+            Either::Right(ControlFlowOp::Jump { to, type_: JumpType::NotZero(r2) }) => { assert!(*to == Label(7) && s.get(r2) == rv, "OB: jump condition moved to a register with a different value"); }
+            _ => assert!(false, "OB: JNZ rewritten to something else"),
+        }
+        let want = if removed { if cnt > 1 { Some(cnt - 1) } else { None } } else { Some(cnt) };
+        assert!(labels.get(&Label(7)).copied() == want, "OB: jump-target bookkeeping: the label must stay a join point while another jump targets it");
+        assert!(labels.get(&Label(9)).copied() == if had_other { Some(other) } else { None }, "OB: jump-target bookkeeping touched another label");
+        // control-flow pseudo-ops leave general registers alone and may clobber $of/$err
+        let mut s2 = s; s2.of = kani::any(); s2.err = kani::any();
+        assert!(gamma(&k, &s2), "OB: a fact kept about a register is false after the jump");
+        assert!(inv(&k), "OB: a fact about or depending on $of/$err survives the jump");
+        std::mem::forget(k); std::mem::forget(op); std::mem::forget(labels); std::mem::forget(reg);
+    }
     // ---- facts assumed of the uninterpreted arithmetic, proved here of the real std operations (simple harnesses, z3) ----
     #[kani::proof] #[kani::solver(z3)]
     fn uf_facts_mul() {
